@@ -659,6 +659,8 @@ class Gen:
         self.emit(ind, f'class {K}:')
         self.emit(ind + 1, f'{a} = {self.int_expr(sc, 1)}')
         self.emit(ind + 1, '__dunder__ = 1')
+        self.emit(ind + 1, 'import string as __st')
+        self.emit(ind + 1, 'from os import sep as __sep')
         self.emit(ind + 1, f'def __init__(self, {p}=2):')
         self.emit(ind + 2, f'self.{a}i = {p} + self.{a}')
         self.emit(ind + 1, f'def {m}(self, {p}, *, __k=1):')
@@ -670,7 +672,7 @@ class Gen:
         self.emit(ind + 3, f'out.append(self.{m}(__i))')
         self.emit(ind + 2, f'self.{a}i += 1')
         self.emit(ind + 2, 'def inner():')
-        self.emit(ind + 3, f'return self.{a}i, self.__dunder__')
+        self.emit(ind + 3, f"return self.{a}i, self.__dunder__, self.__st.digits[:2], self.__sep")
         self.emit(ind + 2, 'return out, inner(), self.lam()')
         if r.random() < 0.5:
             self.emit(ind + 1, f'class __In:')
